@@ -492,7 +492,16 @@ pub fn inline_shape(cb: &Cb) -> u8 {
     }
 }
 
+/// Some named callbacks are functions called `skip` inside a module of their own (a user function that merely
+/// shares its name with `logos::skip`).
+pub fn cb_in_module(cb: &Cb) -> bool {
+    !cb.inline && cb.salt != BUILTIN_SKIP && cb.salt % 5 == 2
+}
+
 fn cb_expr(cb: &Cb, def: &str, leaf: usize) -> String {
+    if cb_in_module(cb) {
+        return format!("{}_m::skip", cb_fn_name(def, leaf));
+    }
     if cb.inline {
         // placeholder replaced by the real body in `render_full`
         let mark = INLINE_MARK.replace("LEAF", &leaf.to_string()).replace("DEF", def);
@@ -550,6 +559,7 @@ impl Def {
         let enter = if self.utf8 { "cb_enter_str" } else { "cb_enter_bytes" };
         let tok = format!("{}::{}", self.name, Def::variant_name(cb.target));
         let e = self.err_val(leaf);
+        let ety = self.err_ty();
         let tail = match cb.ret {
             CbRet::Unit | CbRet::SkUnit => "let _ = h;".to_string(),
             CbRet::Bool if inline_shape(cb) == 2 => "h % 2 != 0".into(),
@@ -557,14 +567,14 @@ impl Def {
             CbRet::Bool => "h % 2 == 0".into(),
             CbRet::Val => "h".into(),
             CbRet::OptVal => "if h % 3 == 0 { None } else { Some(h) }".into(),
-            CbRet::ResVal => format!("if h % 3 == 0 {{ Err({e}) }} else {{ Ok(h) }}"),
+            CbRet::ResVal => format!("if h % 3 == 0 {{ if h % 7 == 0 {{ Err(<{ety}>::default()) }} else {{ Err({e}) }} }} else {{ Ok(h) }}"),
             CbRet::SkipAlways | CbRet::SkSkip => "let _ = h; Skip".into(),
-            CbRet::ResSkip | CbRet::SkResSkip => format!("if h % 2 == 0 {{ Err({e}) }} else {{ Ok(Skip) }}"),
+            CbRet::ResSkip | CbRet::SkResSkip => format!("if h % 2 == 0 {{ if h % 7 == 0 {{ Err(<{ety}>::default()) }} else {{ Err({e}) }} }} else {{ Ok(Skip) }}"),
             CbRet::FilterVal => "if h % 2 == 0 { Filter::Emit(h) } else { Filter::Skip }".into(),
             CbRet::FilterResVal => format!("match h % 3 {{ 0 => FilterResult::Emit(h), 1 => FilterResult::Skip, _ => FilterResult::Error({e}) }}"),
             CbRet::FilterUnit => "if h % 2 == 0 { Filter::Emit(()) } else { Filter::Skip }".into(),
             CbRet::Tok => format!("let _ = h; {tok}"),
-            CbRet::ResTok => format!("if h % 3 == 0 {{ Err({e}) }} else {{ Ok({tok}) }}"),
+            CbRet::ResTok => format!("if h % 3 == 0 {{ if h % 7 == 0 {{ Err(<{ety}>::default()) }} else {{ Err({e}) }} }} else {{ Ok({tok}) }}"),
             CbRet::FilterTok => format!("if h % 2 == 0 {{ Filter::Emit({tok}) }} else {{ Filter::Skip }}"),
             CbRet::FilterResTok => format!("match h % 3 {{ 0 => FilterResult::Emit({tok}), 1 => FilterResult::Skip, _ => FilterResult::Error({e}) }}"),
             CbRet::SkResUnit => format!("if h % 2 == 0 {{ Err({e}) }} else {{ Ok(()) }}"),
@@ -586,7 +596,12 @@ impl Def {
         let this = self.this_ty();
         for (leaf, p) in self.pats.iter().enumerate() {
             if let Some(cb) = &p.cb {
-                if !cb.inline && cb.salt != BUILTIN_SKIP {
+                if cb_in_module(cb) {
+                    src.push_str(&format!(
+                        "mod {}_m {{ use super::*; pub fn skip<'s>(lex: &mut Lexer<'s, {}>) -> {} {{ {} }} }}\n",
+                        cb_fn_name(&self.name, leaf), this, self.cb_ret_type(cb.ret), self.cb_body(leaf)
+                    ));
+                } else if !cb.inline && cb.salt != BUILTIN_SKIP {
                     src.push_str(&format!(
                         "fn {}<'s>(lex: &mut Lexer<'s, {}>) -> {} {{ {} }}\n",
                         cb_fn_name(&self.name, leaf), this, self.cb_ret_type(cb.ret), self.cb_body(leaf)
